@@ -301,6 +301,31 @@ pub fn hostile_line(rng: &mut gen::R) -> (String, bool) {
             _ => ODD.choose(rng).unwrap().repeat(rng.gen_range(1..5)),
         }
     };
+    if rng.gen_bool(0.2) {
+        // the standard go vocabulary with odd values; clock tokens usually come together
+        let vals = ["0", "0", "1", "-1", "60000", "-60000", "2147483647", "-2147483648", "4294967296", "9223372036854775807", "99999999999999999999", "abc", "", "0.5", "e2e4"];
+        let v = |rng: &mut gen::R| vals[rng.gen_range(0..vals.len())];
+        let mut l = String::from("go");
+        if rng.gen_bool(0.6) {
+            l.push_str(&format!(" wtime {} btime {}", v(rng), v(rng)));
+            if rng.gen_bool(0.5) {
+                l.push_str(&format!(" winc {} binc {}", v(rng), v(rng)));
+            }
+            if rng.gen_bool(0.6) {
+                l.push_str(&format!(" movestogo {}", v(rng)));
+            }
+        }
+        let words = ["movestogo", "nodes", "mate", "depth", "movetime", "searchmoves", "ponder", "infinite", "wtime", "btime"];
+        for _ in 0..rng.gen_range(0..3) {
+            l.push(' ');
+            l.push_str(words[rng.gen_range(0..words.len())]);
+            if rng.gen_bool(0.85) {
+                l.push(' ');
+                l.push_str(v(rng));
+            }
+        }
+        return (l, false);
+    }
     match rng.gen_range(0..12) {
         0 => (random_text(rng).replace(['\n', '\r'], " ").chars().take(5000).collect(), false),
         1 => (format!("position startpos moves {}", tok(rng)), true),
@@ -316,7 +341,25 @@ pub fn hostile_line(rng: &mut gen::R) -> (String, bool) {
             let c2 = ["18446744073709551615", "1", "4294967296"][rng.gen_range(0..3)];
             (format!("position fen rnbqkbnr/pppppppp/8/8/8/8/PPPPPPPP/RNBQKBNR w KQkq - {} {} moves g1f3 g8f6 f3g1", c, c2), true)
         }
-        9 => (format!("{} {}", ["positon", "isreadyy", "stopp", "GO", "Position", "quit?"][rng.gen_range(0..6)], tok(rng)), false),
+        9 => {
+            if rng.gen_bool(0.6) {
+                // the standard go vocabulary with odd values (an engine may or may not implement these tokens)
+                let words = ["wtime", "btime", "winc", "binc", "movestogo", "nodes", "mate", "depth", "movetime", "searchmoves", "ponder", "infinite"];
+                let vals = ["0", "1", "-1", "60000", "-60000", "2147483647", "-2147483648", "4294967296", "9223372036854775807", "99999999999999999999", "abc", "", "0.5", "e2e4"];
+                let mut l = String::from("go");
+                for _ in 0..rng.gen_range(1..6) {
+                    l.push(' ');
+                    l.push_str(words[rng.gen_range(0..words.len())]);
+                    if rng.gen_bool(0.85) {
+                        l.push(' ');
+                        l.push_str(vals[rng.gen_range(0..vals.len())]);
+                    }
+                }
+                (l, false)
+            } else {
+                (format!("{} {}", ["positon", "isreadyy", "stopp", "GO", "Position", "quit?"][rng.gen_range(0..6)], tok(rng)), false)
+            }
+        }
         10 => (format!("position startpos moves {}", (0..rng.gen_range(1..6)).map(|_| tok(rng)).collect::<Vec<_>>().join(" ")), true),
         _ => (format!("position fen {}/8/8/8/8/8/8/{} w - - 0 1 moves a1a2", "8".repeat(rng.gen_range(1..40)), "K7"), true),
     }
